@@ -146,6 +146,9 @@ func lockWithin(name string, mu *sync.Mutex, d time.Duration) error {
 }
 
 func runRun(rc runCase, cp *capture) (err error) {
+	if wedged.Load() {
+		return nil
+	}
 	e := getEnv()
 	e.reset(rc.Syncing)
 	var off int64
